@@ -10,6 +10,7 @@ import (
 	"crypto/x509/pkix"
 	"encoding/base64"
 	"math/big"
+	"strings"
 	"sync"
 	"time"
 )
@@ -64,3 +65,7 @@ func Keys() (idp, meta, sp, sp2 *KeyPair) {
 	})
 	return idpKey, metaKey, spKey, spKey2
 }
+
+// CertText is the abstraction of a certificate text the models compare: the base64 text without white space
+// (checkCertificate compares modulo white space since fix 0ef8723)
+func CertText(s string) string { return strings.Join(strings.Fields(s), "") }
